@@ -229,9 +229,12 @@ def collapse_keeps_sets(ck):
     """the supplied delimiter sets stay in force when minimize-collapse-brace re-splits the region"""
     from explore import Explorer
     ex = Explorer(ck)
-    for before, after, data in ((b"@", b",", b"a,b,{\n},X,"), (b"}", b";", b"x;{ \n};y;{\n}"), (b"]", b"[", b"[{\n\n}]a[")):
+    # (delimiter sets that contain the very bytes a collapse rewrites - blanks, line breaks, tabs, the braces themselves)
+    for before, after, data in ((b"@", b",", b"a,b,{\n},X,"), (b"}", b";", b"x;{ \n};y;{\n}"), (b"]", b"[", b"[{\n\n}]a["),
+                                (b" ", b";", b"if(a){  }x;y"), (b"\n", b";", b"a;{\n\n}b;c{ \n}"), (b"\t ", b"", b"x{\t}y z{ }w{\t \t}"),
+                                (b"{", b"}", b"a{ }b{\n}c{  }"), (b" }", b"{", b"q{  }r{ } s{\n }t"), (b"", b" \n", b"k{ \n }l {\n\n} m")):
         atom = f"symbol:{before.hex()}:{after.hex()}"
-        for v in ("Y" * 200, "YNNNNNYYYY" * 20, "Y" + "NY" * 100):
+        for v in ("Y" * 200, "YNNNNNYYYY" * 20, "Y" + "NY" * 100, "YN" + "Y" * 100, "YNN" + "Y" * 100, "YNNNN" + "Y" * 100):
             run1 = ex.one("minimize-collapse-brace", {}, None, data, v, atom=atom, load=True, stream="collapse-sets")
             # the candidate proposed right after the raw write is the freshly RE-SPLIT region: its atoms must
             # be cut at the supplied delimiters (later candidates are deletions of it, not fresh splits)
